@@ -1289,6 +1289,73 @@ fn case_insensitive_case(ctx: &mut Ctx, c: &TextCfg, old: &[u8], new: &[u8]) {
     }
 }
 
+/// a text diff over the TAGGED user-defined type (its `==` is stricter than equality of `as_bytes()`): the stored ops are a valid
+/// script under the type's own `==` (Equal ops pair equal tokens), and are those of diffing its token slices directly
+fn tagged_case(ctx: &mut Ctx, c: &TextCfg, old: &[u8], new: &[u8]) {
+    use super::custom_str::TStr;
+    let (o, n) = (TStr::new(old), TStr::new(new));
+    let req = format!("{} [as a tagged user-defined DiffableStr type: the first byte of a token counts for ==, as_bytes() leaves it out]", text_request(c, Mode::Bytes, old, new));
+    let r = catch_unwind(AssertUnwindSafe(|| {
+        let diff = build_diff(c, DlHow::Deadline, None, o, n);
+        let direct = similar::capture_diff_slices(c.alg, diff.old_slices(), diff.new_slices());
+        let (os, ns) = (diff.old_slices(), diff.new_slices());
+        let (mut i, mut j) = (0usize, 0usize);
+        let mut bad = None;
+        for op in diff.ops() {
+            let (tag, orng, nrng) = op.as_tag_tuple();
+            let (want_o, want_n) = match tag {
+                similar::DiffTag::Equal | similar::DiffTag::Replace => (true, true),
+                similar::DiffTag::Delete => (true, false),
+                similar::DiffTag::Insert => (false, true),
+            };
+            if (want_o && orng.start != i) || (want_n && nrng.start != j) || orng.end > os.len() || nrng.end > ns.len() || orng.start > orng.end || nrng.start > nrng.end {
+                bad = Some(format!("op {:?} does not start at the next unconsumed items (old {}, new {})", op, i, j));
+                break;
+            }
+            if tag == similar::DiffTag::Equal {
+                if orng.len() != nrng.len() {
+                    bad = Some(format!("Equal op {:?} with sides of different length", op));
+                    break;
+                }
+                if let Some(k) = (0..orng.len()).find(|&k| os[orng.start + k] != ns[nrng.start + k]) {
+                    bad = Some(format!(
+                        "Equal op {:?} pairs old token {} ({:?}) with new token {} ({:?}), which are not equal",
+                        op,
+                        orng.start + k,
+                        String::from_utf8_lossy(os[orng.start + k].bytes()),
+                        nrng.start + k,
+                        String::from_utf8_lossy(ns[nrng.start + k].bytes())
+                    ));
+                    break;
+                }
+            }
+            if want_o {
+                i = orng.end;
+            }
+            if want_n {
+                j = nrng.end;
+            }
+        }
+        if bad.is_none() && (i != os.len() || j != ns.len()) {
+            bad = Some(format!("the walk ends at old {} / new {} of {} / {}", i, j, os.len(), ns.len()));
+        }
+        (diff.ops().to_vec(), direct, bad)
+    }));
+    ctx.count("text.tagged_type_runs");
+    match r {
+        Err(_) => ctx.violation("C04", &req, "the text diff panicked".to_string()),
+        Ok((ops, direct, bad)) => {
+            if let Some(e) = bad {
+                ctx.violation("C02", &req, e.clone());
+                ctx.violation("C04", &req, e);
+            }
+            if ops != direct {
+                ctx.violation("C14", &req, format!("ops {} differ from diffing the diff's own token slices directly: {}", proto::show_ops(&ops), proto::show_ops(&direct)));
+            }
+        }
+    }
+}
+
 /// a pair in every applicable mode, plus the C20 / C07 checks
 fn text_pair(ctx: &mut Ctx, c: &TextCfg, old: &[u8], new: &[u8], idx: u64) {
     DRIVE_ITERATORS.with(|d| d.set(true));
@@ -1872,6 +1939,38 @@ pub fn suite_text(ctx: &mut Ctx) {
         let c = TextCfg { kind: if i % 2 == 0 { Kind::Lines } else { Kind::Words }, alg: ALGS[((i / 2) % 3) as usize], nlt: None, dl: None };
         case_insensitive_case(ctx, &c, o.as_bytes(), nn.as_bytes());
         case_insensitive_case(ctx, &c, nn.as_bytes(), o.as_bytes());
+    }
+    // the tagged user-defined type: some tokens of new differ from old ONLY in their tag byte (unequal under the type's `==`,
+    // identical in what `as_bytes` renders), a few really differ; below and above the 100-token switch; lines and words
+    let ntag = if ctx.tier == Tier::Quick { 400u64 } else { 5000 };
+    for i in 0..ntag {
+        if !ctx.take() {
+            continue;
+        }
+        let mut rng = case_rng(ctx, 0x7a66ed, i);
+        let n = if i % 3 == 0 { rng.range(3, 30) } else { rng.range(101, 130) };
+        let sep = if i % 2 == 0 { "\n" } else { " " };
+        let old: Vec<String> = (0..n).map(|k| format!("{}tok{}", ["A", "B", "C"][k % 3], k / (1 + i as usize % 4))).collect();
+        let mut new = old.clone();
+        for _ in 0..rng.range(1, 6) {
+            let at = rng.below(new.len());
+            let retag = ["X", "Y"][rng.below(2)];
+            new[at] = format!("{}{}", retag, &new[at][1..]);
+        }
+        for _ in 0..rng.below(3) {
+            let at = rng.below(new.len());
+            match rng.below(3) {
+                0 => {
+                    new.remove(at);
+                }
+                1 => new.insert(at, format!("Nnew{}", at)),
+                _ => new[at] = format!("Cchanged{}", at),
+            }
+        }
+        let (o, nn) = (old.join(sep) + sep, new.join(sep) + sep);
+        let c = TextCfg { kind: if i % 2 == 0 { Kind::Lines } else { Kind::Words }, alg: ALGS[((i / 2) % 3) as usize], nlt: None, dl: None };
+        tagged_case(ctx, &c, o.as_bytes(), nn.as_bytes());
+        tagged_case(ctx, &c, nn.as_bytes(), o.as_bytes());
     }
     // PASTED lines: an old text of distinct lines, a new text in which a few of them are dropped and a few EXISTING lines are
     // pasted in a second time elsewhere (nothing repeats in old, shared lines repeat in new), on both sides of the 100-token
